@@ -29,7 +29,7 @@ def check_path(algo, w, ex):
     """Runs the solves of one path and returns a list of (prop, key, what)."""
     v = []
     cfg0 = algo.StubConfig(w)
-    r1 = algo.run_solve(w, cfg0, order='symbolic', tag='s1')
+    r1 = algo.run_solve(w, cfg0, order=w.order, tag='s1')
     s = r1['solver']
     cnt = r1['counters']
     info = {'exception': r1['exception'], 'solved': r1['solved'], 'attempts': cnt.total_attempts}
@@ -110,6 +110,9 @@ def check_path(algo, w, ex):
             closure.update(rs)
         for fn in []:
             pass
+        skipped = closure - valued
+        if skipped:
+            v.append(('C01', 'solved-but-read-line-unvalued', 'solve() returned True although lines that evaluated definitions read have no value: %s' % sorted(skipped)))
         if closure != valued:
             v.append(('C04', 'closure-mismatch', 'solution lines %s != demand closure %s' % (sorted(valued), sorted(closure))))
         want_forms = set(n.split('.')[0] for n in valued) | set(['fa'] + w.extra_requested)
@@ -151,6 +154,11 @@ def check_path(algo, w, ex):
         if sig3 != sig1:
             v.append(('C13', 'rerun-differs', 're-run on the written-back store gives a different result'))
             v.append(('C05', 'file-vs-prompt', 'the same inputs supplied by file instead of prompt give a different result'))
+        # the same answers supplied in the file instead of typed at the prompt
+        r4 = algo.run_solve(w, algo.StubConfig(w, preset=cnt.answered), order='natural', prompt_mode='symbolic', tag='s4')
+        sig4 = algo.signature(r4)
+        if sig4 != sig1 and not r4['counters'].refused:
+            v.append(('C05', 'file-vs-prompt', 'the answers typed at the prompt, supplied in the file instead, give a different result: %s vs %s' % (short(sig1), short(sig4))))
     info['prompts'] = len(cnt.prompt_log)
     info['forms'] = sorted(s.forms)
     info['lines'] = len(valued)
@@ -171,7 +179,7 @@ def witness(ex, w, p):
     wit = {'program': [[repr(k), a] for k, a in w.choices.items()], 'present': {}, 'answers': {}, 'ranks': {}, 'preds': {}}
     for name in w.input_names:
         wit['present'][name] = bool(tm.model_value(m, tm.var('present:' + name, 'B')))
-        wit['answers'][name] = bool(tm.model_value(m, tm.var('answer:' + name, 'B')))
+        wit['answers'][name] = int(tm.model_value(m, tm.var('answer:' + name, 'I')))
     for name in sorted(w.rank_names):
         wit['ranks'][name] = int(tm.model_value(m, tm.var('rank:' + name, 'I')))
     for r in p.decisions:
@@ -201,6 +209,11 @@ def task(arg):
         w.req_a = bounds.get('req_a', max(1, bounds['N'] - 1))
         w.extra_requested = list(bounds.get('extra_requested', []))
         w.rank_names = set()
+        w.input_modes = bounds.get('input_modes', False)
+        w.mode_granularity = bounds.get('mode_granularity', 'program')
+        w.n_modes = bounds.get('n_modes', 3)
+        w.n_answers = bounds.get('n_answers', 3)
+        w.order = bounds.get('order', 'symbolic')
         holder['w'] = w
         return check_path(algo, w, ex)
     try:
@@ -259,12 +272,41 @@ def run_all(bounds):
     return common.pmap(task, tasks)
 
 
+def cached_run_all(bounds):
+    """The six algorithm-level checks share one exploration per configuration:
+    results are cached under the content hash of /repo's habutax sources and
+    hv's own sources (recomputed whenever either changes)."""
+    import pickle
+    from . import retmodel
+    key = 'algo-%s-%s' % (retmodel._tree_hash(), '_'.join('%s=%s' % kv for kv in sorted(bounds.items())))
+    fn = os.path.join(common.VERIF, '.cache', key.replace(' ', '').replace("'", '').replace('[', '').replace(']', '')[:200] + '.pkl')
+    if os.path.exists(fn) and os.environ.get('HV_NO_CACHE') != '1':
+        try:
+            with open(fn, 'rb') as f:
+                return pickle.load(f)
+        except Exception:
+            pass
+    res = run_all(bounds)
+    os.makedirs(os.path.dirname(fn), exist_ok=True)
+    tmp = fn + '.%d.tmp' % os.getpid()
+    with open(tmp, 'wb') as f:
+        pickle.dump(res, f)
+    os.replace(tmp, fn)
+    return res
+
+
 def run_property(pid, tier, technique_extra=''):
+    # two complementary slices of the space per size: (A) every attempt order x
+    # lookup modes {v[x], v.get(x)}; (B) natural order x blank/non-blank/refused answers
+    A = dict(order='symbolic', n_modes=2, n_answers=2)
+    B = dict(order='natural', n_modes=1, n_answers=3)
     if tier == 'quick':
-        configs = [dict(N=2, M=1, D=1, req_a=1, second_form=True)]
+        configs = [dict(N=2, M=1, D=1, req_a=1, second_form=True, **A), dict(N=2, M=1, D=1, req_a=1, second_form=True, **B)]
     else:
-        configs = [dict(N=2, M=1, D=1, req_a=1, second_form=True), dict(N=3, M=1, D=1, req_a=2, second_form=True), dict(N=2, M=2, D=2, req_a=1, second_form=False),
-                   dict(N=2, M=1, D=1, req_a=1, second_form=True, instanced=True)]
+        configs = [dict(N=2, M=1, D=1, req_a=1, second_form=True, order='symbolic', n_modes=3, n_answers=3),
+                   dict(N=3, M=1, D=1, req_a=2, second_form=True, **A), dict(N=3, M=1, D=1, req_a=2, second_form=True, **B),
+                   dict(N=2, M=2, D=2, req_a=1, second_form=False, **A), dict(N=2, M=2, D=2, req_a=1, second_form=False, **B),
+                   dict(N=2, M=1, D=1, req_a=1, second_form=True, instanced=True, **A)]
     c = common.Check(pid, tier, 'bounded symbolic execution of the real Solver/DependencyTracker/ValueStore/InputStore on generated form programs: line behaviour, input presence, prompt answers and attempt order are SMT choices explored lazily to exhaustion; values are EUF terms' + technique_extra,
                      ['habutax.solver.Solver.solve/_attempt_field/_attempt_input/_add_form/_add_unattempted', 'habutax.solver.DependencyTracker.*', 'habutax.values.ValueStore', 'habutax.form.FormAccessor',
                       'habutax.inputs.InputStore.__getitem__/__setitem__/provides', 'habutax.fields.TypedField.value', 'habutax.inputs.IntegerInput.value/valid'])
@@ -275,7 +317,7 @@ def run_property(pid, tier, technique_extra=''):
     c.bounds = {'configs': configs}
     c.outside = ['programs with more lines / deeper decision trees than the listed configurations', 'unknown input names (unbounded recursion: C10)', 'string/float-valued lines (C12)']
     for cfgb in configs:
-        results = run_all(cfgb)
+        results = cached_run_all(cfgb)
         tot_paths = sum(r['paths'] for r in results)
         c.paths += tot_paths
         kinds = {}
@@ -303,7 +345,7 @@ def run_property(pid, tier, technique_extra=''):
         harness = {k: n for k, n in kinds.items() if k.startswith('harness:')}
         if harness:
             raise RuntimeError('harness exceptions: %s %s' % (harness, [s for r in results for s in r['samples'] if 'harness_exception' in s][:1]))
-        name = 'N=%d,M=%d,D=%d,second=%s,inst=%s' % (cfgb['N'], cfgb['M'], cfgb['D'], cfgb.get('second_form'), cfgb.get('instanced', False))
+        name = 'N=%d,M=%d,D=%d,second=%s,inst=%s,order=%s,modes=%s,answers=%s' % (cfgb['N'], cfgb['M'], cfgb['D'], cfgb.get('second_form'), cfgb.get('instanced', False), cfgb.get('order'), cfgb.get('n_modes'), cfgb.get('n_answers'))
         # one obligation per explored path: "all assertions of <pid> hold on this end state"
         nviol = sum(d['count'] for r in results for d in r['viol'].get(pid, {}).values())
         c.obligations += tot_paths
